@@ -208,7 +208,7 @@ func (ac *accessCollector) collect(p *Prog) {
 				}
 				// nested field of a tracked struct reached through another tracked field
 				// (embedded by value) is classified at the outermost tracked field only.
-				if inner, ok := x.X.(*ssa.FieldAddr); ok {
+				if inner, ok := origin(x.X).(*ssa.FieldAddr); ok {
 					if ifr, ok2 := asFieldAddr(inner); ok2 && ac.tracked(ifr.SName) {
 						if _, isStruct := inner.Type().(*types.Pointer).Elem().Underlying().(*types.Struct); isStruct {
 							return
